@@ -180,6 +180,9 @@ def jobs(tier, seed):
     depth = 6 if tier == "quick" else 8
     for root in opx.split_frontier(m, [("start", ())], 3):
         out.append({"part": "recycle", "root": root, "depth": depth - 2})
+    m3 = opx.Machine(menu=TREES_MENU, njob=3, targets_menu=((),), fs_events=False, exits=["ok"])
+    for root in opx.split_frontier(m3, [("start", ())], 3):
+        out.append({"part": "recycle", "menu": "trees", "root": root, "depth": depth - 2})
     m2 = opx.Machine(menu=SUBS_MENU, njob=3, targets_menu=((),), fs_events=False, exits=["ok"], allow_kill=False)
     for root in opx.split_frontier(m2, [("start", ())], 1):
         out.append({"part": "recycle", "menu": "subs", "root": root, "depth": 3 if tier == "quick" else 4})
@@ -349,12 +352,18 @@ SUBS_MENU = [("register_glob", "$job", "${*n}", {"n": "[a]"}, "$glob"),
              opx.step_req("s3", [], ["b"]), opx.MENU_AMEND[4], opx.step_req("s2", [], [], ["b"])]
 
 
+# a step that declares a static tree, another step with an output under that tree: the tree
+# comes back with its recycled declarer after the output was declared (and the other way round)
+TREES_MENU = [opx.step_req("s1", [], ["b"]), opx.MENU_STEPS[5], opx.MENU_STATIC[4]]
+MENUS = {"subs": SUBS_MENU, "trees": TREES_MENU}
+
+
 def run_recycle(spec, acc):
     """Declarations that arrive while an earlier owner is detached but recyclable: a step is
     defined (and may run), its creator is killed and runs again, patterns and steps are declared
     in every order. Breadth-first over canonical states, invariants at every commit."""
     check = Check(acc)
-    menu = SUBS_MENU if spec.get("menu") == "subs" else RECYCLE_MENU
+    menu = MENUS.get(spec.get("menu"), RECYCLE_MENU)
     m = opx.Machine(menu=menu, njob=3, check=check, targets_menu=((),), fs_events=False,
                     exits=["ok"], allow_kill=spec.get("menu") != "subs")
     orig = m.replay
